@@ -1,5 +1,5 @@
 """C14 — selectors return the best-ranked, mutually uncorrelated features."""
-import fractions, json, math, random, warnings
+import fractions, json, math, os, random, warnings
 import numpy as np, pandas as pd
 from . import core, c04, selgen
 
@@ -33,7 +33,11 @@ def check_type(drv, sel, X, y, feats, dtype, measure_name, filter_kind, cfg, ret
         both_nan = math.isnan(v) and (math.isnan(iv) or iv <= 1e-6)   # R_measure: a (numerically) null R² is undefined
         if not both_nan and not (abs(v - iv) <= 1e-9 * max(1.0, abs(iv))):
             fails.append({"kind": "property", "what": "a reported association value differs from its independent recomputation",
-                          "feature": f, "measure": measure_name, "reported": v, "recomputed": iv})
+                          "feature": f, "measure": measure_name, "reported": v, "recomputed": iv,
+                          # known finding C14-kruskal-missing-group: Kruskal-Wallis H of a continuous target by a qualitative
+                          # feature is NaN as soon as the feature has a missing value (NaN becomes an empty group)
+                          "kruskal_missing_group": bool(task == "regression" and dtype == "str" and math.isnan(v)
+                                                        and any(selgen._missing(u) for u in X[f].tolist()))})
     assoc = []
     fl = list(feats)
     for i, a in enumerate(fl):
@@ -57,10 +61,16 @@ def check_type(drv, sel, X, y, feats, dtype, measure_name, filter_kind, cfg, ret
     return fails
 
 
-def check_case(drv, rng, stats):
-    task = rng.choice(["classification", "classification", "regression"])
-    X, y, quant, qual = selgen.gen_frame(rng, task)
-    cfg = selgen.gen_config(rng, task, quant, qual)
+def check_case(drv, rng, stats, given=None):
+    if given is not None:
+        task = given["task"]
+        X = pd.DataFrame(given["X"]); y = pd.Series(given["y"], index=X.index, name="target")
+        quant = [c for c in X.columns if c.startswith("q")]; qual = [c for c in X.columns if c.startswith("k")]
+        cfg = dict(given["cfg"]); cfg["kw"] = selgen.kw_from_names(task, cfg["names"])
+    else:
+        task = rng.choice(["classification", "classification", "regression"])
+        X, y, quant, qual = selgen.gen_frame(rng, task)
+        cfg = selgen.gen_config(rng, task, quant, qual)
     Xb, yb = X.copy(deep=True), y.copy(deep=True)
     fails = []
     case = {"task": task, "cfg": {k: v for k, v in cfg.items() if k != "kw"}, "X": {c: [None if (isinstance(v, float) and math.isnan(v)) else v for v in X[c].tolist()] for c in X.columns},
@@ -98,6 +108,14 @@ def worker(args):
     fails, sample = [], None
     stats = {"cases": 0, "measures_checked": 0, "tie_cases": 0, "select_errors": {}}
     try:
+        if n == -1:
+            d = os.path.join(core.ROOT, "corpus", "C14")
+            for fn in sorted(os.listdir(d)) if os.path.isdir(d) else []:
+                fs = check_case(drv, rng, stats, given=json.load(open(os.path.join(d, fn))))
+                for f in fs:
+                    f["corpus"] = fn
+                fails += fs
+            return fails[:6], len(fails), stats, sample, stats["cases"]
         for _ in range(n):
             fails += check_case(drv, rng, stats)
         return fails[:6], len(fails), stats, sample, stats["cases"]
@@ -105,8 +123,15 @@ def worker(args):
         drv.close()
 
 
+def matcher(f, known):
+    for k in known:
+        if k.get("when") == "kruskal-missing-group" and f.get("kruskal_missing_group") is True:
+            return k
+    return None
+
+
 def main(tier, seed):
-    return c04.main(tier, seed, prop="C14", worker_fn=worker,
+    return c04.main(tier, seed, prop="C14", worker_fn=worker, matcher_fn=matcher, corpus_task=True,
                     rule="random frames (2-6 quantitative features in correlated clusters with duplicates, ties, NaN; 0-4 qualitative ones), binary / 3-class / continuous targets, "
                          "n_best, thresh_corr in {1, .9, .7, .5, .3}, default and user-supplied measures (kruskal, R, tschuprowt, cramerv, distance) and filters (spearman, pearson, "
                          "tschuprowt, cramerv); every reported measure is recomputed independently (numpy only), the Lean specification judges the returned list per feature type "
